@@ -123,7 +123,7 @@ def map_children(s, f):
 def map_strings(s, g):
     """Rebuild statement `s` with `g` applied to every identifier / expression text it carries (not children)."""
     k = s[0]
-    if k in ("label", "op", "lookup"):
+    if k in ("label", "op", "lookup", "orgexpr"):
         return (k, g(s[1]))
     if k == "data":
         return (k, s[1], [g(e) for e in s[2]])
@@ -141,11 +141,12 @@ def map_strings(s, g):
 
 
 def sub_ident(text: str, old: str, new: str) -> str:
-    return re.sub(rf"(?<![A-Za-z0-9_.]){re.escape(old)}(?![A-Za-z0-9_])", new, text)
+    # a qualified reference `scope.old` is a use of `old` too
+    return re.sub(rf"(?<![A-Za-z0-9_]){re.escape(old)}(?![A-Za-z0-9_])", new, text)
 
 
 def mentions(text: str, name: str) -> bool:
-    return re.search(rf"(?<![A-Za-z0-9_.]){re.escape(name)}(?![A-Za-z0-9_])", text) is not None
+    return re.search(rf"(?<![A-Za-z0-9_]){re.escape(name)}(?![A-Za-z0-9_])", text) is not None
 
 
 def sub_tree(stmts, old, new):
